@@ -371,6 +371,20 @@ func runOp(r *table.Reader, op string) (out string) {
 	}()
 	parts := strings.Split(op, ":")
 	switch parts[0] {
+	case "e":
+		// class of the reader's permanent error (NewReader leaves it in r.err; every call returns it)
+		_, _, err := r.Find([]byte{}, false, curRO)
+		if ce, ok := err.(*lerrors.ErrCorrupted); ok {
+			if te, ok := ce.Err.(*table.ErrCorrupted); ok {
+				switch te.Kind {
+				case "table", "table-footer":
+					return "e:footer"
+				case "meta-block", "index-block":
+					return "e:block"
+				}
+			}
+		}
+		return "e:ok"
 	case "f", "F":
 		k, v, err := r.Find(unhex(parts[1]), parts[0] == "F", curRO)
 		if err != nil {
